@@ -35,7 +35,7 @@ fn c17_suffix_rule_2p24() {
     kani::cover!(n % 100 == 12 && n > 1000, "teens above one thousand reachable");
 }
 
-// HV: {"name":"c17_suffix_rule_2p53","prop":"C17","tier":"thorough","kernel":"NumberSuffix::correct_suffix_for","bound":"every integer n < 2^53 (as f64), one query","fns":["harper_core::number::NumberSuffix::correct_suffix_for"],"timeout_s":1800}
+// HV: {"name": "c17_suffix_rule_2p53", "prop": "C17", "tier": "quick", "kernel": "NumberSuffix::correct_suffix_for", "bound": "every integer n < 2^53 (as f64), one query", "fns": ["harper_core::number::NumberSuffix::correct_suffix_for"], "timeout_s": 900, "cost": 5}
 #[kani::proof]
 fn c17_suffix_rule_2p53() {
     let n: u64 = kani::any();
@@ -141,9 +141,35 @@ fn c17_lint_one_number_1000() {
     lint_one_number(1000);
 }
 
-// HV: {"name":"c17_lint_one_number_2p53","prop":"C17","tier":"thorough","kernel":"CorrectNumberSuffix::lint","bound":"one Number token, n < 2^53, 4 suffixes, width 3..=6 at any offset of an 8-char source","fns":["harper_core::linting::correct_number_suffix::CorrectNumberSuffix::lint","harper_core::number::NumberSuffix::correct_suffix_for"],"timeout_s":2400}
+// HV: {"name": "c17_lint_one_number_2p53", "prop": "C17", "tier": "quick", "kernel": "CorrectNumberSuffix::lint", "bound": "one Number token, n < 2^53, 4 suffixes, width 3..=6 at any offset of an 8-char source", "fns": ["harper_core::linting::correct_number_suffix::CorrectNumberSuffix::lint", "harper_core::number::NumberSuffix::correct_suffix_for"], "timeout_s": 900, "cost": 6}
 #[kani::proof]
 #[kani::unwind(10)]
 fn c17_lint_one_number_2p53() {
     lint_one_number(1u64 << 53);
+}
+
+/// "<number><suffix>" must reach the rule as a number: the 4-digit-decade lexer (`1980s`) may
+/// not swallow the `s` of an `st` suffix (`1980st` is the ordinal 1980 with a wrong suffix).
+// HV: {"name":"c17_decade_vs_suffix","prop":"C17","tier":"quick","kernel":"lex_long_decade vs. ordinal suffix","bound":"every [12]dd0 followed by s + any char, then any 2 further chars (any Unicode scalar)","fns":["harper_core::lexing::lex_long_decade","harper_core::number::NumberSuffix::from_chars"]}
+#[kani::proof]
+#[kani::unwind(10)]
+fn c17_decade_vs_suffix() {
+    let src: [char; 8] = crate::util::any_chars::<8>();
+    let len: usize = kani::any();
+    kani::assume(len >= 5 && len <= 8);
+    let text = &src[..len];
+    let is_decade_text = (text[0] == '1' || text[0] == '2')
+        && text[1].is_ascii_digit()
+        && text[2].is_ascii_digit()
+        && text[3] == '0'
+        && text[4] == 's';
+    kani::assume(is_decade_text);
+    let found = harper_core::verif_hooks::lex_long_decade(text);
+    // if the characters after the digits form an ordinal suffix, this is "<number><suffix>"
+    if NumberSuffix::from_chars(&text[4..]).is_some() {
+        assert!(found.is_none(), "a number directly followed by an ordinal suffix is not lexed as a decade");
+    }
+    kani::cover!(len == 6 && found.is_none(), "number + st reachable");
+    kani::cover!(len == 5 && found.is_some(), "plain decade still lexed");
+    core::mem::forget(found);
 }
